@@ -155,6 +155,13 @@ pub fn c03_fault(rng: &mut Rng, names: &[String], foreign_tok: usize) -> Fault {
                 Fault::ForeignDisclosure { from: foreign_tok, j: idx, at: rng.usize(24) }
             }
         }
+        15 if rng.bool() => {
+            // undecodable text with a multi-byte character at a chosen byte offset (code that
+            // slices such strings by bytes must not split a character)
+            let k = rng.usize(70);
+            let ch = *rng.pick(&["é", "中", "😀", "\u{7ff}", "\u{800}"]);
+            Fault::GarbageDisclosure { text: format!("{}{}{}", "A".repeat(k), ch, "B".repeat(8 + rng.usize(60))), at: rng.usize(24) }
+        }
         _ => {
             let text = rng
                 .pick(&[
@@ -479,13 +486,7 @@ pub fn gen_c04(rng: &mut Rng, tier: Tier) -> MsgScn {
                                 json!(7)
                             }
                         }
-                        KbField::Aud => {
-                            if rng.bool() {
-                                json!(format!("{}x", s1.0))
-                            } else {
-                                json!(["other"])
-                            }
-                        }
+                        KbField::Aud => rng.pick(&[json!(format!("{}x", s1.0)), json!(["other"]), json!([]), json!(null), json!({}), json!(""), json!(0), json!([[]])]).clone(),
                         KbField::SdHash => {
                             if rng.bool() {
                                 json!("AAAAAAAAAAAAAAAAAAAAAAAAAAAAAAAAAAAAAAAAAAA")
@@ -507,7 +508,18 @@ pub fn gen_c04(rng: &mut Rng, tier: Tier) -> MsgScn {
             }
             14 => c.session = Some((Some(s1.0.clone()), Some(format!("{}-other", s1.1)))),
             15 => c.session = Some((Some(format!("{}-other", s1.0)), Some(s1.1.clone()))),
-            16 => c.session = if rng.bool() { Some((Some(s1.0.clone()), None)) } else { Some((None, Some(s1.1.clone()))) },
+            16 => {
+                c.session = if rng.bool() { Some((Some(s1.0.clone()), None)) } else { Some((None, Some(s1.1.clone()))) };
+                // exactly one of aud / nonce must be an error whatever the presentation carries:
+                // with its KB-JWT, with it stripped or emptied, or for a presentation that never had one
+                match rng.usize(5) {
+                    0 => c.faults.push(Fault::StripKb),
+                    1 => c.faults.push(Fault::EmptyKb),
+                    2 => c.base = Base::Pres(4),
+                    3 => c.base = Base::Pres(5),
+                    _ => {}
+                }
+            }
             17 => {
                 // credential without cnf: the attacker binds its own key
                 c.base = Base::Pres(4);
